@@ -141,6 +141,77 @@ JudgeL(r) ==
             f = {} \/ PrintT(<<"V", r.id, "L", 1,
                                <<MaxLatWhich(a, b), MinLatWhich(a, b)>>, <<ArcKind(a, b)>>, f>>)
 
+
+(* ---- shrunk arcs (short arcs with the class inherited from the base case, ArcZ.tla) --------- *)
+\* Records name the base lattice case and the exponents ks (M = 10^k); the harness built the arcs
+\* (M w + a, M w + b) exactly in integers.  Variants: 1..nx exact (as built, endpoint / arc swap), jv jitter.
+VarFails(r, nv, got(_), bad(_)) ==
+    { <<bad(v), v>> : v \in { w \in 1..nv : bad(w) # "ok" } }
+    \cup (IF \E v \in 2..NX(r, nv) : got(v) # got(1) THEN { <<"Invariance", 0>> } ELSE {})
+    \cup { <<InvName(r, v), v>> : v \in { w \in (NX(r, nv) + 1)..nv : got(w) # got(1) } }
+
+\* kind "SM": a, b, p (strictly inside), K, ks, qidx; rp[ki][v] answer for p on the shrunk arc, tp[ki] for p
+\* tilted 2e-6 rad off the plane, r[ki][v][j] for the lattice point q_j (judged when outside (a, b) with margin)
+JudgeSM(r) ==
+    LET a == Vec3(r.a)  b == Vec3(r.b)  p == Vec3(r.p)
+        KS == { ki \in 1..Len(r.ks) : ValidArc(a, b) /\ Judgeable(p) /\ ShrinkTripleOK(a, b, p, r.ks[ki]) }
+        Q == { j \in 1..Len(r.qidx) :
+                 LET q == VecOfIndex(r.qidx[j], r.K) IN
+                 Judgeable(q) /\ TripleJudged(a, b, q) /\ ArcClass(a, b, q) \in {"OnCircleOutside", "Off"} }
+        nv == Len(r.rp[1])
+        pf(ki) == VarFails(r, nv, LAMBDA v : r.rp[ki][v],
+                           LAMBDA v : IF r.rp[ki][v] = 2 THEN "NoRaise" ELSE IF r.rp[ki][v] # 1 THEN "OnArcReported" ELSE "ok")
+                  \cup (IF r.tp[ki] # 0 THEN { <<"NearCircleRejected", TiltVariant>> } ELSE {})
+        qf(ki, j) == VarFails(r, nv, LAMBDA v : r.r[ki][v][j],
+                              LAMBDA v : IF r.r[ki][v][j] = 2 THEN "NoRaise" ELSE IF r.r[ki][v][j] # 0 THEN "OffArcRejected" ELSE "ok")
+    IN /\ PrintT(<<"S", r.id, "SM", IF ValidArc(a, b) THEN ArcKind(a, b) ELSE "notarc",
+                   Cardinality(KS) * (1 + Cardinality(Q)), (Len(r.ks) - Cardinality(KS)) * (1 + Cardinality(Q)), Cardinality(KS)>>)
+       /\ \A ki \in KS :
+             /\ pf(ki) = {} \/ PrintT(<<"V", r.id, "SM", <<r.ks[ki], 0>>, "Interior", <<ArcKind(a, b)>>, pf(ki)>>)
+             /\ \A j \in Q : qf(ki, j) = {} \/
+                   PrintT(<<"V", r.id, "SM", <<r.ks[ki], j>>, ArcClass(a, b, VecOfIndex(r.qidx[j], r.K)), <<ArcKind(a, b)>>, qf(ki, j)>>)
+
+\* kind "SX": a, b, o[j] = <<c, d>>, ks, r[j][ki][v] = <<n, t1, t2>> as for kind "X", arcs shrunk around the crossing
+JudgeSX(r) ==
+    LET a == Vec3(r.a)  b == Vec3(r.b)
+        cd(j) == << Vec3(r.o[j][1]), Vec3(r.o[j][2]) >>
+        code(j) == PairCode(a, b, cd(j)[1], cd(j)[2])
+        J == { jk \in (1..Len(r.o)) \X (1..Len(r.ks)) :
+                 code(jk[1]) \in {1, 2} /\ ShrinkPairOK(a, b, cd(jk[1])[1], cd(jk[1])[2], r.ks[jk[2]]) }
+        f(j, ki) == LET k == code(j)  nv == Len(r.r[j][ki])  got(v) == r.r[j][ki][v] IN
+                    VarFails(r, nv, LAMBDA v : got(v),
+                             LAMBDA v : CASE got(v)[1] = -1 -> "NoRaise"
+                                          [] got(v)[1] = 0 -> "CrossingFound"
+                                          [] got(v)[1] > 1 -> "ExtraPoints"
+                                          [] got(v)[1] = 1 /\ got(v)[2] # k -> "PointOnBothArcs"
+                                          [] OTHER -> "ok")
+    IN /\ PrintT(<<"S", r.id, "SX", IF ValidArc(a, b) THEN ArcKind(a, b) ELSE "notarc",
+                   Cardinality(J), Len(r.o) * Len(r.ks) - Cardinality(J), Cardinality(J)>>)
+       /\ \A jk \in J :
+             f(jk[1], jk[2]) = {} \/
+             PrintT(<<"V", r.id, "SX", <<r.ks[jk[2]], jk[1]>>, ArcPairClass(a, b, cd(jk[1])[1], cd(jk[1])[2]),
+                      <<ArcKind(a, b), ArcKind(cd(jk[1])[1], cd(jk[1])[2])>>, f(jk[1], jk[2])>>)
+
+\* kind "SL": a, b, p, ks, r[ki][v] = <<maxset, minset, raised>>; candidates: 3 top, 4 bottom of the circle,
+\* 5 the higher, 6 the lower of the two endpoint latitudes (evaluated from the exact integer endpoints)
+JudgeSL(r) ==
+    LET a == Vec3(r.a)  b == Vec3(r.b)  p == Vec3(r.p)
+        \* not judged: an arc shrunk around a pole with M >= 10^4 has its endpoints inside the library's documented
+        \* pole snap (|z| > 1 - 1e-8, i.e. within 1.4e-4 rad of the pole, where latitudes are reported as +-90)
+        KS == { ki \in 1..Len(r.ks) : /\ ValidArc(a, b) /\ Judgeable(p) /\ ShrinkTripleOK(a, b, p, r.ks[ki])
+                                       /\ ~(IsPole(p) /\ r.ks[ki] >= 4) }
+        wmax(ki) == IF ShrunkBulgesNorth(a, b, p, Pow10(r.ks[ki])) THEN 3 ELSE 5
+        wmin(ki) == IF ShrunkBulgesSouth(a, b, p, Pow10(r.ks[ki])) THEN 4 ELSE 6
+        f(ki) == LET nv == Len(r.r[ki])
+                     st(v) == << r.r[ki][v][3], wmax(ki) \in Range(r.r[ki][v][1]), wmin(ki) \in Range(r.r[ki][v][2]) >>
+                 IN VarFails(r, nv, LAMBDA v : st(v),
+                             LAMBDA v : IF st(v)[1] = 1 THEN "NoRaise" ELSE IF ~st(v)[2] THEN "MaxLatitude"
+                                        ELSE IF ~st(v)[3] THEN "MinLatitude" ELSE "ok")
+    IN /\ PrintT(<<"S", r.id, "SL", IF ValidArc(a, b) THEN ArcKind(a, b) ELSE "notarc",
+                   Cardinality(KS), Len(r.ks) - Cardinality(KS), Cardinality({ ki \in KS : wmax(ki) = 3 \/ wmin(ki) = 4 })>>)
+       /\ \A ki \in KS : f(ki) = {} \/
+             PrintT(<<"V", r.id, "SL", <<r.ks[ki], 0>>, <<wmax(ki), wmin(ki)>>, <<ArcKind(a, b)>>, f(ki)>>)
+
 (* ---- driver ---------------------------------------------------------------------------- *)
 Init == i \in { -k : k \in 1..NBlocks }
 Next == /\ i < 0
@@ -151,4 +222,7 @@ Judge == i > 0 =>
            CASE r.kind = "M" -> JudgeM(r)
              [] r.kind = "X" -> IF Has(r, "r") THEN JudgeX(r) ELSE ClassifyX(r)
              [] r.kind = "L" -> JudgeL(r)
+             [] r.kind = "SM" -> JudgeSM(r)
+             [] r.kind = "SX" -> JudgeSX(r)
+             [] r.kind = "SL" -> JudgeSL(r)
 =============================================================================
